@@ -667,6 +667,54 @@ func checkC16(p *core.Program, r *core.Report) {
 	} else {
 		r.Fail(R1, "categories encoding", p.Pos(proc.Pos()), fmt.Sprintf("categories are written with separator %q format %q but read with separator %q base %d", wsep, wfmt, rsep, rbase))
 	}
+	// every category that parses is kept (the list is a list, not a set) ...
+	ncat := 0
+	eachInstrWithCallees(p, proc, "mdns", 2, func(in ssa.Instruction) {
+		c, ok := in.(*ssa.Call)
+		if !ok || !isBuiltin(in, "append") || !core.InLoop(in.Block()) {
+			return
+		}
+		st, ok := c.Type().Underlying().(*types.Slice)
+		if !ok || !core.TypeIs(st.Elem(), apiPath, "DeviceCategoryType") {
+			return
+		}
+		ncat++
+		key := "reader keeps every parsed category"
+		var foreign []string
+		for _, f := range loopGuards(in) {
+			if isRangeLoopCond(f.cond) || isParseErrTest(f.cond) {
+				continue
+			}
+			foreign = append(foreign, f.cond.String())
+		}
+		if len(foreign) == 0 {
+			r.OK(R1, key, p.Pos(in.Pos()), "inside the loop only the parse error guards the append")
+		} else {
+			r.Fail(R1, key, p.Pos(in.Pos()), "a category that parsed is appended only under a further condition (e.g. 'not listed yet'): the announcer writes every configured category, repeats included, so the browser reads back a different list")
+		}
+	})
+	if ncat == 0 {
+		r.Fail(R1, "reader keeps every parsed category", p.Pos(proc.Pos()), "the loop that collects the categories is not recognisable")
+	}
+	// ... and the TXT list handed to the provider is the list as built: literal + appends, nothing filtered out
+	{
+		key := "announced TXT list is passed as built"
+		var txtArg ssa.Value
+		for _, a := range core.Common(annCall).Args {
+			if st, ok := a.Type().Underlying().(*types.Slice); ok {
+				if b, ok := st.Elem().Underlying().(*types.Basic); ok && b.Info()&types.IsString != 0 {
+					txtArg = a
+				}
+			}
+		}
+		if txtArg == nil {
+			r.Fail(R1, key, p.Pos(annCall.Pos()), "no []string argument of the provider's Announce call")
+		} else if why := builtList(p, txtArg, 0); why != "" {
+			r.Fail(R1, key, p.Pos(annCall.Pos()), "the TXT list passes through "+why+" before it is announced: items are removed depending on their text (e.g. every item ending in '='), so a value that happens to match - a base64 serial, a model cut at '=' - is not announced although it is configured")
+		} else {
+			r.OK(R1, key, p.Pos(annCall.Pos()), "slice literal and appends only")
+		}
+	}
 	r.Floor(R1, 18)
 
 	// ---- R5: a changed auto-accept flag is re-announced
@@ -1408,4 +1456,133 @@ func loopHeaderOf(b *ssa.BasicBlock) *ssa.BasicBlock {
 		}
 	}
 	return nil
+}
+
+// loopGuards: the branch facts that guard in inside its innermost loop (the loop test included).
+func loopGuards(in ssa.Instruction) []fact {
+	b := in.Block()
+	reach := core.ReachableFrom(b, nil)
+	var hdr *ssa.BasicBlock
+	for d := b; d != nil && hdr == nil; d = d.Idom() {
+		for _, pr := range d.Preds {
+			if d.Dominates(pr) && reach[pr] {
+				hdr = d
+				break
+			}
+		}
+	}
+	var out []fact
+	for _, f := range dominatingFactsWithBlock(in) {
+		if hdr == nil || (hdr.Dominates(f.at)) {
+			out = append(out, f.fact)
+		}
+	}
+	return out
+}
+
+type factAt struct {
+	fact
+	at *ssa.BasicBlock // the block whose branch establishes the fact
+}
+
+func dominatingFactsWithBlock(in ssa.Instruction) []factAt {
+	var out []factAt
+	for b := in.Block(); b != nil; b = b.Idom() {
+		if len(b.Preds) != 1 {
+			continue
+		}
+		d := b.Preds[0]
+		iff := core.BlockIf(d)
+		if iff == nil {
+			continue
+		}
+		for idx, s := range d.Succs {
+			if s == b && d.Succs[1-idx] != b {
+				v, t := core.Truth(iff.Cond, idx)
+				out = append(out, factAt{fact{v, t}, d})
+			}
+		}
+	}
+	return out
+}
+
+// isParseErrTest: err != nil / err == nil on the error result of a strconv parse call.
+func isParseErrTest(v ssa.Value) bool {
+	bo, ok := v.(*ssa.BinOp)
+	if !ok || (bo.Op != token.EQL && bo.Op != token.NEQ) {
+		return false
+	}
+	var other ssa.Value
+	if core.IsNilConst(bo.Y) {
+		other = bo.X
+	} else if core.IsNilConst(bo.X) {
+		other = bo.Y
+	}
+	e, ok := other.(*ssa.Extract)
+	if !ok {
+		return false
+	}
+	c, ok := e.Tuple.(*ssa.Call)
+	return ok && strings.HasPrefix(core.CalleeName(&c.Call), "strconv.")
+}
+
+// builtList: "" when the string slice is a literal extended by appends (possibly in package-local helpers);
+// otherwise names what else it passes through.
+func builtList(p *core.Program, v ssa.Value, depth int) string {
+	return builtListV(p, v, depth, map[ssa.Value]bool{})
+}
+
+func builtListV(p *core.Program, v ssa.Value, depth int, seen map[ssa.Value]bool) string {
+	if seen[v] {
+		return ""
+	}
+	seen[v] = true
+	if depth > 12 {
+		return "an unrecognised construction"
+	}
+	builtList := func(p *core.Program, v ssa.Value, depth int) string { return builtListV(p, v, depth, seen) }
+	switch x := v.(type) {
+	case *ssa.Const:
+		return ""
+	case *ssa.Slice:
+		if _, ok := x.X.(*ssa.Alloc); ok {
+			return ""
+		}
+		return builtList(p, x.X, depth+1)
+	case *ssa.Phi:
+		for _, e := range x.Edges {
+			if why := builtList(p, e, depth+1); why != "" {
+				return why
+			}
+		}
+		return ""
+	case *ssa.Call:
+		if b, ok := x.Call.Value.(*ssa.Builtin); ok && b.Name() == "append" {
+			return builtList(p, x.Call.Args[0], depth+1)
+		}
+		if t := x.Call.StaticCallee(); t != nil && t.Blocks != nil && p.PkgShort(t) == "mdns" {
+			for _, b := range t.Blocks {
+				if ret, ok := b.Instrs[len(b.Instrs)-1].(*ssa.Return); ok && len(ret.Results) == 1 {
+					if why := builtList(p, ret.Results[0], depth+1); why != "" {
+						return why
+					}
+				}
+			}
+			return ""
+		}
+		return core.CalleeName(&x.Call)
+	case *ssa.UnOp:
+		if al, ok := x.X.(*ssa.Alloc); ok && x.Op == token.MUL {
+			// local variable spilled to a cell: every value stored into it
+			for _, ref := range *al.Referrers() {
+				if st, ok := ref.(*ssa.Store); ok && st.Addr == al {
+					if why := builtList(p, st.Val, depth+1); why != "" {
+						return why
+					}
+				}
+			}
+			return ""
+		}
+	}
+	return "an unrecognised construction"
 }
